@@ -11,6 +11,7 @@ import (
 	"os"
 	"os/exec"
 	"path/filepath"
+	"regexp"
 	"sort"
 	"strconv"
 	"strings"
@@ -28,6 +29,7 @@ type PropConfig struct {
 	Explanation        string              `json:"explanation"`
 	Callers            map[string][]string `json:"callers"`             // callee -> the only functions allowed to call it (package sweep)
 	Guards             bool                `json:"guards"`              // lock-guard obligations are part of this property (C20); elsewhere they are not generated into the claim
+	CalleeClosure      bool                `json:"callee_closure"`      // extend Functions by the contract-bearing functions they transitively call
 	Unstable           []string            `json:"unstable"`            // obligations whose proof depends on solver luck: never admitted to the lock (UNDECIDED, not a violation, when they fail)
 	AssumedObligations map[string]string   `json:"assumed_obligations"` // obligation -> why it is assumed instead of discharged (reported as an assumption, never counted)
 }
@@ -98,15 +100,6 @@ func checkMain(args []string) int {
 	_ = readJSON(filepath.Join(verifDir, "baseline", "params.lock"), &baselineParams)
 	_ = readJSON(filepath.Join(verifDir, "baseline", "loops.lock"), &baselineLoops)
 	_ = readJSON(filepath.Join(verifDir, "baseline", "locals.lock"), &baselineLocals)
-	if *updateLock {
-		// the tree IS the baseline: bind by the names and ordinals as written; the recorded shapes of this property's
-		// functions are replaced below
-		for _, key := range pc.Functions {
-			delete(baselineParams, key)
-			delete(baselineLoops, key)
-			delete(baselineLocals, key)
-		}
-	}
 	for _, n := range lock[prop] {
 		lockedNow[n] = true
 	}
@@ -114,7 +107,7 @@ func checkMain(args []string) int {
 	_ = readJSON(filepath.Join(verifDir, "known_findings.json"), &known)
 
 	for _, k := range known {
-		if k.Property == prop && k.Status == "known" {
+		if k.Status == "known" {
 			knownFailing[k.Obligation] = true
 		}
 	}
@@ -159,6 +152,21 @@ func checkMain(args []string) int {
 		return 1
 	}
 
+	if pc.CalleeClosure {
+		// modular verification checks a caller against the callee's contract: the proof of the property is only complete
+		// if the callees' contracts are discharged too. The listed functions are extended by every function of the
+		// repository they (transitively) call, spawn or defer that has a contract of its own (trusted ones are assumptions).
+		pc.Functions = calleeClosure(w, pc.Functions)
+	}
+	if *updateLock {
+		// the tree IS the baseline: bind by the names and ordinals as written; the recorded shapes of this property's
+		// functions are replaced below
+		for _, key := range pc.Functions {
+			delete(baselineParams, key)
+			delete(baselineLoops, key)
+			delete(baselineLocals, key)
+		}
+	}
 	var records []oblRecord
 	var allObls []*Obligation
 	var abstracted []string
@@ -278,7 +286,9 @@ func checkMain(args []string) int {
 	isKnown := func(name string) *KnownFinding {
 		for i := range known {
 			k := &known[i]
-			if k.Property == prop && k.Obligation == name && k.Status == "known" {
+			// a known finding is an unproved contract clause of a function: it is reported by every property whose
+			// (callee-closed) function list contains that function, not only by the property it was found under
+			if k.Obligation == name && k.Status == "known" {
 				return k
 			}
 		}
@@ -347,6 +357,15 @@ func checkMain(args []string) int {
 			continue
 		}
 		counted++
+		if !locked[o.Name] && o.Result != "sat" && o.Kind == "frame" && lockedFunc(locked, o.Name) && contractRelevant(w, o.Name) {
+			// A function that was verified on the baseline now writes a heap variable it did not write then, outside
+			// its declared frame, and that variable is state the contracts speak about: its callers were verified
+			// against the frame. (A write to state no contract mentions - a new field, a cache - stays UNDECIDED.)
+			rp := filepath.Join(replayDir, mangle(o.Name)+".txt")
+			os.WriteFile(rp, []byte("obligation: "+o.Name+"\nstatus: the function did not write this heap variable on the baseline; it now does, outside its declared assigns clause, and the variable is mentioned by contracts\nsolver: "+o.Result+" ("+o.Backend+")\n"+o.Text+"\n"), 0o644)
+			report(o.Name, fmt.Sprintf("%s [frame] at %s: new write to contract-relevant state outside the declared frame (%s)", o.Text, o.Pos, o.Result), rp, false)
+			continue
+		}
 		if !locked[o.Name] && o.Result != "sat" {
 			fmt.Fprintf(os.Stderr, "UNDECIDED %s (%s, not in the baseline lock)\n", o.Name, o.Result)
 			counted--
@@ -730,4 +749,104 @@ func loopDropped(n string) bool {
 		return false
 	}
 	return droppedLoops[n[:i]][ord]
+}
+
+// lockedFunc: the function of obligation n has obligations in the lock (it existed and was verified on the baseline).
+func lockedFunc(locked map[string]bool, n string) bool {
+	i := strings.Index(n, "#")
+	if i < 0 {
+		return false
+	}
+	pre := n[:i+1]
+	for k := range locked {
+		if strings.HasPrefix(k, pre) {
+			return true
+		}
+	}
+	return false
+}
+
+// contractRelevant: the heap variable of frame obligation n (F.<pkg>.<Type>.<field> or G.<ghost>) is mentioned in a
+// clause of some contract (requires / ensures / invariant / lemma): state the verification depends on.
+func contractRelevant(w *World, n string) bool {
+	i := strings.Index(n, "#frame:")
+	if i < 0 {
+		return false
+	}
+	hv := n[i+len("#frame:"):]
+	var re *regexp.Regexp
+	switch {
+	case strings.HasPrefix(hv, "F."):
+		re = regexp.MustCompile(`\.` + regexp.QuoteMeta(hv[strings.LastIndex(hv, ".")+1:]) + `\b`)
+	case strings.HasPrefix(hv, "G."):
+		re = regexp.MustCompile(`\b` + regexp.QuoteMeta(hv[2:]) + `\(`)
+	default:
+		return false
+	}
+	for _, c := range w.specs.Contracts {
+		var cls []*Clause
+		cls = append(cls, c.Requires...)
+		cls = append(cls, c.Ensures...)
+		cls = append(cls, c.Preserves...)
+		for _, l := range c.Loops {
+			cls = append(cls, l.Invariants...)
+		}
+		for _, a := range c.After {
+			cls = append(cls, a...)
+		}
+		for _, cl := range cls {
+			if re.MatchString(cl.Text) {
+				return true
+			}
+		}
+	}
+	return false
+}
+
+// calleeClosure: keys plus every repository function with a verified (not trusted) contract that is reachable from them
+// through static calls, go / defer statements and function literals.
+func calleeClosure(w *World, keys []string) []string {
+	seen := map[string]bool{}
+	out := append([]string{}, keys...)
+	for _, k := range keys {
+		seen[k] = true
+	}
+	for i := 0; i < len(out); i++ {
+		fn := w.funcs[canonKey(out[i])]
+		if fn == nil {
+			continue
+		}
+		var cands []*ssa.Function
+		for _, b := range fn.Blocks {
+			for _, in := range b.Instrs {
+				if ci, ok := in.(ssa.CallInstruction); ok {
+					if sc := ci.Common().StaticCallee(); sc != nil {
+						cands = append(cands, sc)
+					}
+				}
+				if mc, ok := in.(*ssa.MakeClosure); ok {
+					if f, ok := mc.Fn.(*ssa.Function); ok {
+						cands = append(cands, f)
+					}
+				}
+			}
+		}
+		sort.Slice(cands, func(a, b int) bool { return funcKey(cands[a]) < funcKey(cands[b]) })
+		for _, c := range cands {
+			k := funcKey(c)
+			if seen[k] {
+				continue
+			}
+			ct := w.specs.Contracts[canonKey(k)]
+			if ct == nil {
+				ct = w.specs.Contracts[k]
+			}
+			if ct == nil || ct.Flags["trusted"] != "" || !strings.Contains(ct.File, "zz_contracts_verif.go") || len(c.Blocks) == 0 || w.funcs[canonKey(k)] == nil {
+				continue
+			}
+			seen[k] = true
+			out = append(out, k)
+		}
+	}
+	return out
 }
